@@ -57,7 +57,8 @@ def bfind(b, sub):
 
 
 def rpow(x, n):
-    return x ** n
+    from fractions import Fraction
+    return Fraction(x) ** n
 
 
 def rpow2(n):
@@ -65,7 +66,8 @@ def rpow2(n):
 
 
 def toreal(x):
-    return x
+    from fractions import Fraction
+    return Fraction(x)
 
 
 i2r = toreal
